@@ -23,6 +23,7 @@ import (
 	"bufio"
 	"fmt"
 	"os"
+	"slices"
 	"strconv"
 	"strings"
 	"time"
@@ -127,4 +128,19 @@ func verifLazyCut(pos *Position, cheap, alpha, beta int) {
 	if VerifLazyProbe {
 		verifLazyCutProbe(pos, cheap)
 	}
+}
+
+// VERIF_STABLE_SORT=1: order moves with a *stable* descending sort by ranking instead of slices.SortFunc
+// (which does not keep the generation order of equally ranked moves). Only the tie-breaking differs; it
+// makes node counts and principal variations reproducible by the Lean model, whose sort is a parameter.
+var verifStable = os.Getenv("VERIF_STABLE_SORT") == "1"
+
+func verifStableSort(moves []rankedMove) bool {
+	if !verifStable {
+		return false
+	}
+	slices.SortStableFunc(moves, func(a, b rankedMove) int {
+		return int(b.ranking - a.ranking)
+	})
+	return true
 }
